@@ -10,8 +10,10 @@
 (* "up2" (restricted to the 1st / 2nd enclosing module), "crate", "public". *)
 (* A case: [enumvis, cfg (Attr syntax), gapless].                           *)
 (* An observation (from rustdoc JSON, i.e. from the compiler):              *)
-(*   items   : set of [name, kind ("fn"|"const"), vis, isconst] -- every     *)
-(*             item of every inherent impl of the enum                       *)
+(*   items   : set of [name, kind ("fn"|"const"), vis, isconst, sig] --      *)
+(*             every item of every inherent impl of the enum; sig = the      *)
+(*             shape of its (return) type: self | opt_self | prim | str |    *)
+(*             struct:<name> | other                                         *)
 (*   structs : set of [name, vis, traits] -- every other item of the module  *)
 (*   traits  : set of trait names implemented for the enum (not synthetic,   *)
 (*             not blanket), "From<E> for repr" and "From<E> for &str" are   *)
@@ -25,12 +27,18 @@ KindOfItem(f) == IF f \in {"MIN", "MAX"} THEN "const" ELSE "fn"
 PV(e, k)      == LET p == ParamOf(e, k) IN IF p.vk = "absent" THEN "absent" ELSE p.v
 NameOfItem(e) == IF PV(e, "name") = "absent" THEN e.f ELSE PV(e, "name")
 
+StructName(c, f) == IF PV(EntryOf(c.cfg, f), "struct_name") = "absent" THEN (IF f = "iter" THEN "EIter" ELSE "ENames")
+                    ELSE PV(EntryOf(c.cfg, f), "struct_name")
+\* the documented (return) types (C19): MIN / MAX are constants of the enum type, into returns the primitive, next /
+\* next_back / try_from / from_str return Option<Self>, as_str returns &'static str, iter / range return the iterator
+\* struct of iter, names the one of names
+SigOf(c, f) == CASE f \in {"MIN", "MAX"} -> "self" [] f = "into" -> "prim" [] f = "as_str" -> "str"
+                 [] f \in {"next", "next_back", "try_from", "from_str"} -> "opt_self"
+                 [] f \in {"iter", "range"} -> "struct:" \o StructName(c, "iter") [] f = "names" -> "struct:" \o StructName(c, "names")
 \* the items the user asked for
 UserItems(c) ==
   {[name |-> NameOfItem(EntryOf(c.cfg, f)), kind |-> KindOfItem(f), vis |-> VisOf(PV(EntryOf(c.cfg, f), "vis"), c.enumvis),
-    isconst |-> f = "into"] : f \in {g \in ItemFeatures : Has(c.cfg, g)}}
-StructName(c, f) == IF PV(EntryOf(c.cfg, f), "struct_name") = "absent" THEN (IF f = "iter" THEN "EIter" ELSE "ENames")
-                    ELSE PV(EntryOf(c.cfg, f), "struct_name")
+    isconst |-> f = "into", sig |-> SigOf(c, f)] : f \in {g \in ItemFeatures : Has(c.cfg, g)}}
 IterTraits == {"Iterator", "DoubleEndedIterator", "ExactSizeIterator", "FusedIterator"}
 UserStructs(c) ==
   {[name |-> StructName(c, f), vis |-> VisOf(PV(EntryOf(c.cfg, f), "vis"), c.enumvis), traits |-> IterTraits] :
@@ -47,4 +55,6 @@ SurfaceOK(c, o) ==
   /\ \A s \in UserStructs(c) : \E t \in o.structs : t.name = s.name /\ t.vis = s.vis /\ s.traits \subseteq t.traits
   /\ \A t \in o.structs : \E s \in UserStructs(c) : s.name = t.name                            \* nothing else is added to the module
   /\ o.traits = UserTraits(c)                                                                  \* nor to the enum's trait surface
+\* C19 (the rustdoc-visible part): every requested item has the documented (return) type, whatever its name and visibility
+SigOK(c, o) == \A u \in UserItems(c) : \A i \in o.items : i.name = u.name => i.sig = u.sig
 =============================================================================
